@@ -173,6 +173,45 @@ func VH_throttle() {
 	}
 }
 
+// VH_cancel: the connection's context is cancelled while the handler sits out
+// the latency: the client must still not be read before the latency has passed
+// (the handler gives up instead).
+func VH_cancel() {
+	buckets = map[*rate.Limiter]*bucket{}
+	lat := 400 * time.Millisecond
+	h := &l4throttle.Handler{Latency: caddy.Duration(lat)}
+	vapi.Assert(h.Provision(caddy.Context{}) == nil, "provision")
+	d := vapi.Bytes("D", 8)
+	r := &connRec{conn: &env.SymConn{D: d}, first: -1}
+	cx := layer4.WrapConnection(obsConn{r.conn, r}, nil, zap.NewNop())
+	ctx, cancel := context.WithCancel(context.Background())
+	cx.Context = ctx
+	at := []time.Duration{50 * time.Millisecond, 399 * time.Millisecond, 400 * time.Millisecond, 600 * time.Millisecond}[vapi.Choice("cancel at", 4)]
+	go func() {
+		time.Sleep(at)
+		cancel()
+	}()
+	t0 := vapi.Elapsed()
+	ran := false
+	err := h.Handle(cx, layer4.HandlerFunc(func(cx *layer4.Connection) error {
+		ran = true
+		p := make([]byte, 8)
+		_, _ = cx.Read(p)
+		return nil
+	}))
+	if r.first >= 0 {
+		vapi.Assert(r.first-t0 >= int64(lat), "the first read was attempted before the configured latency had passed")
+	}
+	if at < lat {
+		vapi.Cover("cancelled during the latency")
+		vapi.Assert(err != nil && !ran, "a connection cancelled during the latency was handed on")
+	} else if at > lat {
+		vapi.Cover("cancelled afterwards")
+		vapi.Assert(err == nil && ran, "the handler chain did not run after the latency")
+	}
+}
+
 func init() {
+	vapi.Register("c17.VH_cancel", VH_cancel)
 	vapi.Register("c17.VH_throttle", VH_throttle)
 }
